@@ -1,18 +1,18 @@
 (* C15 hazard pointers: executable model of the reclamation scan in src/hazardptrs.c (definitions only).
 
-   Pointers are N (< 2^64).  void_cmp subtracts two intptr_t and returns the result as `int`: the difference is
-   truncated to 32 bits (2^32 divides 2^64, so the 64-bit wrap of the subtraction does not matter).
-   binary_search and the free/keep loop of hazardous_scan are mirrored branch by branch.  qsort is modelled by
-   insertion sort with the code's comparator; for a comparator that is consistent on the list every correct
-   sorting algorithm returns the same list, outside that guard the result of the real qsort is unspecified.  *)
+   Pointers are N (< 2^64).  void_cmp compares two uintptr_t and returns (x > y) - (x < y); binary_search is the
+   half-open [min,max) loop of the source; the free/keep loop of hazardous_scan is mirrored branch by branch.
+   qsort is modelled by insertion sort with the code's comparator (the comparator is a total order, so every correct
+   sorting algorithm returns the same list).
+   History: before /repo commits e07a9b8 and 38d5aa8 void_cmp truncated the pointer difference to int and
+   binary_search never examined index 0; inputs of those classes are kept as regression cases of the check.   *)
 From Coq Require Import List NArith ZArith Bool.
 Import ListNotations.
 Local Open Scope N_scope.
 
-Definition to_int32 (z : Z) : Z := ((z + 2147483648) mod 4294967296 - 2147483648)%Z.
-
-(* static int void_cmp(a, b): returns  [intptr_t at a] - [intptr_t at b]  converted to int *)
-Definition void_cmp (a b : N) : Z := to_int32 (Z.of_N a - Z.of_N b).
+(* static int void_cmp(a, b): x = [uintptr_t at a], y = [uintptr_t at b]; return (x > y) - (x < y); *)
+Definition void_cmp (a b : N) : Z :=
+  Z.sub (if b <? a then 1%Z else 0%Z) (if a <? b then 1%Z else 0%Z).
 
 (* qsort(plist, n, sizeof(void* ), void_cmp) as insertion sort: insert x before the first y with cmp x y <= 0 *)
 Fixpoint insert (x : N) (l : list N) : list N :=
@@ -26,26 +26,28 @@ Fixpoint isort (l : list N) : list N :=
 Definition at_ (l : list N) (i : N) : N := nth (N.to_nat i) l 0.
 
 (* static int binary_search(uintptr_t *list, uintptr_t findme, size_t len)
-     size_t max = len, min = 0, curs = max / 2;
-     while (list[curs] != findme) {
-        if (list[curs] > findme) max = curs; else if (list[curs] < findme) min = curs;
-        if (max == min + 1) break;
-        curs = (max + min) / 2;
+     size_t max = len, min = 0;
+     while (min < max) {
+        const size_t curs = min + ((max - min) / 2);
+        if (list[curs] == findme) return 1;
+        else if (list[curs] < findme) min = curs + 1;
+        else max = curs;
      }
-     return (list[curs] == findme);
-   None = the loop did not stop within `fuel` iterations (len = 1, list[0] > findme loops forever in the code) *)
-Fixpoint bs_loop (fuel : nat) (l : list N) (findme mn mx curs : N) : option bool :=
-  if at_ l curs =? findme then Some true else
-  match fuel with
-  | O => None
-  | S f =>
-      let mx' := if findme <? at_ l curs then curs else mx in
-      let mn' := if at_ l curs <? findme then curs else mn in
-      if mx' =? mn' + 1 then Some (at_ l curs =? findme)
-      else bs_loop f l findme mn' mx' ((mx' + mn') / 2)
-  end.
+     return 0;
+   None = the loop did not stop within `fuel` iterations (excluded by bsearch_total) *)
+Fixpoint bs_loop (fuel : nat) (l : list N) (findme mn mx : N) : option bool :=
+  if mn <? mx then
+    match fuel with
+    | O => None
+    | S f =>
+        let curs := mn + (mx - mn) / 2 in
+        if at_ l curs =? findme then Some true
+        else if at_ l curs <? findme then bs_loop f l findme (curs + 1) mx
+        else bs_loop f l findme mn curs
+    end
+  else Some false.
 Definition binary_search (l : list N) (findme : N) (len : N) : option bool :=
-  bs_loop (S (N.to_nat len)) l findme 0 len (len / 2).
+  bs_loop (S (N.to_nat len)) l findme 0 len.
 
 (* Stage 1 of hazardous_scan: every worker's HAZARD_PTRS_PER_SHEP slots, the scanning worker's own slots as 0 *)
 Definition collect (slots : list (list N)) (me : nat) : list N :=
@@ -69,9 +71,3 @@ Definition scan (slots : list (list N)) (me : nat) (freelist : list N) : option 
   let pl := collect slots me in
   stage2 (isort pl) (N.of_nat (length pl)) freelist.
 
-(* the guard under which the truncating comparator orders the list like the unsigned order binary_search uses *)
-Definition cmp_ok (a b : N) : bool :=
-  match (void_cmp a b ?= 0)%Z, (a ?= b) with
-  | Lt, Lt => true | Eq, Eq => true | Gt, Gt => true | _, _ => false
-  end.
-Definition cmp_consistent (l : list N) : bool := forallb (fun a => forallb (fun b => cmp_ok a b) l) l.
